@@ -23,7 +23,7 @@ REQUIRED_COUNTERS = ['layouts_compared', 'backend_outputs_compared', 'stdin_comp
 
 
 def time_limit(tier):
-    return 900 if tier == 'quick' else 5400
+    return common.default_limit(tier)
 
 
 def budget(tier):
@@ -52,7 +52,7 @@ def run_shard(tier, seed, idx, n, res, tmp):
     for ci in common.case_range(idx, b['models'], n, res):
         cs = common.case_seed(PROPERTY, seed, ci)
         rnd = random.Random(cs)
-        prof = gm.make_profile(cfg_style='dropbox' if ci % 2 else None, p_keyword_doc=0.08,
+        prof = gm.make_profile(cfg_style='dropbox' if ci % 2 else None, p_keyword_doc=0.08, p_multi_ns_doc=0.25,
                                route_arg_kinds=('struct', 'union', 'void', 'alias') if ci % 3 else
                                gm.DEFAULT_PROFILE['route_arg_kinds'])
         m = gm.generate(cs, prof)
